@@ -863,7 +863,11 @@ XalanTransformer::setStylesheetParam(
             const XalanDOMString&    qname,
             const XalanDOMString&    expression)
 {
-    m_params[qname].m_expression = expression;
+    XalanParamHolder&   theHolder = m_params[qname];
+
+    // The last call for a name wins, whichever form it uses...
+    theHolder.m_expression = expression;
+    theHolder.m_value = XObjectPtr();
 }
 
 void
@@ -871,7 +875,11 @@ XalanTransformer::setStylesheetParam(
             const XalanDOMString&    qname,
             XObjectPtr               object)
 {
-    m_params[qname].m_value = object;
+    XalanParamHolder&   theHolder = m_params[qname];
+
+    // The last call for a name wins, whichever form it uses...
+    theHolder.m_expression.clear();
+    theHolder.m_value = object;
 }
 
 
